@@ -1,1 +1,373 @@
+//! Step bus (DESIGN 2.3.1): drives an execution with the debugger's single-stepping and
+//! hands `(pre, instruction at pre.$pc, post, outcome)` to step monitors. Histories are
+//! recorded at the boundary (before/after each single-stepped instruction), never inside
+//! the implementation.
 
+use crate::{
+    Report,
+    guarded,
+    recstore::{
+        Access,
+        RecStorage,
+    },
+    world::{
+        Outcome,
+        Vm,
+        World,
+        new_vm,
+        outcome_of,
+    },
+};
+use fuel_asm::{
+    Instruction,
+    RegId,
+};
+use fuel_tx::{
+    Receipt,
+    Script,
+};
+use fuel_types::{
+    AssetId,
+    ContractId,
+    Word,
+};
+use fuel_vm::{
+    checked_transaction::Ready,
+    state::ProgramState,
+};
+
+pub const MEM_SIZE: u64 = 1 << 26;
+
+/// Observable VM state at an instruction boundary.
+#[derive(Clone, Default)]
+pub struct Snap {
+    pub regs: Vec<Word>,
+    /// copy of the raw stack buffer (extent = len) if memory capture is on
+    pub stack: Vec<u8>,
+    /// copy of the raw heap buffer (covers [MEM_SIZE - len, MEM_SIZE))
+    pub heap: Vec<u8>,
+    pub mem_captured: bool,
+    pub receipts_len: usize,
+    /// hook H2
+    pub depth: usize,
+    pub balances: Vec<(AssetId, Word, usize)>,
+    pub input_contracts: Vec<ContractId>,
+}
+
+impl Snap {
+    pub fn r(&self, id: RegId) -> Word {
+        self.regs[id.to_u8() as usize]
+    }
+    pub fn pc(&self) -> Word {
+        self.r(RegId::PC)
+    }
+    pub fn is(&self) -> Word {
+        self.r(RegId::IS)
+    }
+    pub fn sp(&self) -> Word {
+        self.r(RegId::SP)
+    }
+    pub fn ssp(&self) -> Word {
+        self.r(RegId::SSP)
+    }
+    pub fn hp(&self) -> Word {
+        self.r(RegId::HP)
+    }
+    pub fn fp(&self) -> Word {
+        self.r(RegId::FP)
+    }
+    pub fn ggas(&self) -> Word {
+        self.r(RegId::GGAS)
+    }
+    pub fn cgas(&self) -> Word {
+        self.r(RegId::CGAS)
+    }
+    pub fn stack_extent(&self) -> u64 {
+        self.stack.len() as u64
+    }
+    /// accessible per the flat model: below the stack extent or at/above `$hp`
+    pub fn accessible(&self, addr: u64, len: u64) -> bool {
+        let Some(end) = addr.checked_add(len) else {
+            return false;
+        };
+        end <= MEM_SIZE && (end <= self.stack_extent() || addr >= self.hp())
+    }
+    /// byte at an address (only meaningful for accessible addresses, with capture on)
+    pub fn byte(&self, addr: u64) -> Option<u8> {
+        if addr < self.stack.len() as u64 {
+            return Some(self.stack[addr as usize]);
+        }
+        let off = MEM_SIZE - self.heap.len() as u64;
+        if addr >= off && addr < MEM_SIZE {
+            return Some(self.heap[(addr - off) as usize]);
+        }
+        None
+    }
+    pub fn bytes(&self, addr: u64, len: u64) -> Option<Vec<u8>> {
+        if !self.accessible(addr, len) {
+            return None;
+        }
+        (addr..addr + len).map(|a| self.byte(a)).collect()
+    }
+    pub fn word_at(&self, addr: u64) -> Option<u64> {
+        let b = self.bytes(addr, 8)?;
+        Some(u64::from_be_bytes(b.try_into().ok()?))
+    }
+}
+
+pub fn snap(vm: &Vm, capture_mem: bool, into: &mut Snap) {
+    into.regs.clear();
+    into.regs.extend_from_slice(vm.registers());
+    into.mem_captured = capture_mem;
+    into.stack.clear();
+    into.heap.clear();
+    if capture_mem {
+        into.stack.extend_from_slice(vm.memory().stack_raw());
+        into.heap.extend_from_slice(vm.memory().heap_raw());
+    } else {
+        // keep the extent information without the contents
+        into.stack.resize(vm.memory().stack_raw().len(), 0);
+    }
+    into.receipts_len = vm.receipts().len();
+    into.depth = vm.verif_call_depth();
+    into.balances = vm.verif_balances();
+    into.input_contracts = vm.verif_input_contracts();
+}
+
+#[derive(Clone, Debug, PartialEq)]
+pub enum StepEnd {
+    /// the VM is suspended before the next instruction
+    Continue,
+    /// the program ended; `post` includes the VM's epilogue (script result receipt,
+    /// output finalisation, receipts root)
+    Finished(ProgramState),
+    /// the interpreter returned an error other than a program panic
+    Error(String),
+}
+
+pub struct Step<'a> {
+    pub index: u64,
+    pub pre: &'a Snap,
+    pub post: &'a Snap,
+    /// instruction word at `pre.$pc` (None if not readable)
+    pub word: Option<u32>,
+    pub instr: Option<Instruction>,
+    pub end: &'a StepEnd,
+    pub new_receipts: &'a [Receipt],
+    pub accesses: &'a [Access],
+    /// transaction as currently held by the VM (after the step)
+    pub tx: &'a Script,
+    /// location `(contract, $pc - $is)` reported by the debug event that suspended the VM
+    /// after this step (None when the program ended)
+    pub event: Option<(ContractId, Word)>,
+}
+
+impl Step<'_> {
+    /// With single-stepping the debugger suppresses the event when the location equals
+    /// the previous one, so an instruction that jumps to itself executes twice between
+    /// two events. Such steps are ambiguous for one-instruction oracles.
+    pub fn ambiguous_self_jump(&self) -> bool {
+        matches!(self.end, StepEnd::Continue) && self.post.pc() == self.pre.pc() && self.post.is() == self.pre.is()
+    }
+    /// `(reason, $pc in the receipt, raw instruction in the receipt)` of the panic receipt
+    /// appended in this step. NOTE: the VM fetches the next instruction before raising
+    /// the debug event, so a terminal step can carry a panic that belongs to the *fetch
+    /// of the following instruction* (receipt pc != pre.pc: this instruction completed).
+    pub fn panic_info(&self) -> Option<(fuel_asm::PanicReason, Word, u32)> {
+        self.new_receipts.iter().find_map(|r| match r {
+            Receipt::Panic { reason, pc, .. } => Some((*reason.reason(), *pc, *reason.instruction())),
+            _ => None,
+        })
+    }
+    /// panic raised by the instruction of this step itself
+    pub fn own_panic(&self) -> Option<fuel_asm::PanicReason> {
+        match self.panic_info() {
+            Some((r, pc, _)) if pc == self.pre.pc() => Some(r),
+            _ => None,
+        }
+    }
+    /// the instruction of this step completed (possibly followed by a failing fetch)
+    pub fn completed(&self) -> bool {
+        self.own_panic().is_none() && !matches!(self.end, StepEnd::Error(_))
+    }
+    /// panic reason if this step ended the program with a panic receipt
+    pub fn panic_reason(&self) -> Option<fuel_asm::PanicReason> {
+        self.new_receipts.iter().find_map(|r| match r {
+            Receipt::Panic { reason, .. } => Some(*reason.reason()),
+            _ => None,
+        })
+    }
+    pub fn opcode_name(&self) -> String {
+        match &self.instr {
+            Some(i) => format!("{:?}", i.opcode()),
+            None => "INVALID".into(),
+        }
+    }
+}
+
+pub trait StepMonitor {
+    fn on_start(&mut self, _w: &World, _first: &Snap, _tx: &Script, _rep: &mut Report) {}
+    fn on_step(&mut self, w: &World, s: &Step, rep: &mut Report);
+    fn on_finish(&mut self, _w: &World, _out: &Outcome, _vm: &Vm, _rep: &mut Report) {}
+}
+
+#[derive(Clone, Debug)]
+pub struct BusOpts {
+    pub capture_mem: bool,
+    pub max_steps: u64,
+}
+
+impl Default for BusOpts {
+    fn default() -> Self {
+        Self { capture_mem: true, max_steps: 50_000 }
+    }
+}
+
+pub struct BusResult {
+    pub outcome: Outcome,
+    pub vm: Vm,
+    pub steps: u64,
+    /// the run was cut at `max_steps` (monitors saw a prefix; no final comparison)
+    pub truncated: bool,
+    pub host_panic: Option<String>,
+}
+
+/// Execute `ready` on a fresh VM with single-stepping, feeding every step to `mons`.
+pub fn run_stepped(
+    w: &World,
+    ready: Ready<Script>,
+    opts: &BusOpts,
+    mons: &mut [&mut dyn StepMonitor],
+    rep: &mut Report,
+) -> BusResult {
+    let mut vm = new_vm(w);
+    run_stepped_on(w, &mut vm, ready, opts, mons, rep).with_vm(vm)
+}
+
+pub struct BusPartial {
+    pub outcome: Outcome,
+    pub steps: u64,
+    pub truncated: bool,
+    pub host_panic: Option<String>,
+}
+
+impl BusPartial {
+    fn with_vm(self, vm: Vm) -> BusResult {
+        BusResult { outcome: self.outcome, vm, steps: self.steps, truncated: self.truncated, host_panic: self.host_panic }
+    }
+}
+
+pub fn run_stepped_on(
+    w: &World,
+    vm: &mut Vm,
+    ready: Ready<Script>,
+    opts: &BusOpts,
+    mons: &mut [&mut dyn StepMonitor],
+    rep: &mut Report,
+) -> BusPartial {
+    vm.set_single_stepping(true);
+    {
+        let st: &RecStorage = (*vm).as_ref();
+        st.take_log();
+    }
+    let mut host_panic = None;
+    let mut cur: Result<ProgramState, String> = match guarded(|| vm.transact(ready).map(|s| *s.state())) {
+        Ok(Ok(s)) => Ok(s),
+        Ok(Err(e)) => Err(format!("{e:?}")),
+        Err(p) => {
+            host_panic = Some(p.text.clone());
+            Err(format!("HOST PANIC: {}", p.text))
+        }
+    };
+    let mut a = Snap::default();
+    let mut b = Snap::default();
+    let mut have_pre = false;
+    let mut steps = 0u64;
+    let mut truncated = false;
+    // accesses made during initialisation (before the first instruction) are attributed
+    // to step "init" by the monitors that care: expose through a pseudo step? they are
+    // kept in `init_accesses` and handed to on_start via the report counters only.
+    let init_accesses = {
+        let st: &RecStorage = (*vm).as_ref();
+        st.take_log()
+    };
+    rep.count_n("bus_init_storage_accesses", init_accesses.len() as u64);
+    let mut pre_word: Option<u32> = None;
+    loop {
+        let suspended = matches!(cur, Ok(ProgramState::RunProgram(_)));
+        // snapshot the current boundary into `b`
+        snap(vm, opts.capture_mem, &mut b);
+        let accesses = {
+            let st: &RecStorage = (*vm).as_ref();
+            st.take_log()
+        };
+        if have_pre {
+            let end = if suspended {
+                StepEnd::Continue
+            } else {
+                match &cur {
+                    Ok(s) => StepEnd::Finished(*s),
+                    Err(e) => StepEnd::Error(e.clone()),
+                }
+            };
+            let new_receipts = &vm.receipts()[a.receipts_len.min(vm.receipts().len())..];
+            let instr = pre_word.and_then(|wd| Instruction::try_from(wd.to_be_bytes()).ok());
+            let step = Step {
+                index: steps,
+                pre: &a,
+                post: &b,
+                word: pre_word,
+                instr,
+                end: &end,
+                new_receipts,
+                accesses: &accesses,
+                tx: vm.transaction(),
+                event: match &cur {
+                    Ok(ProgramState::RunProgram(fuel_vm::state::DebugEval::Breakpoint(b))) => Some((*b.contract(), b.pc())),
+                    _ => None,
+                },
+            };
+            for m in mons.iter_mut() {
+                m.on_step(w, &step, rep);
+            }
+            steps += 1;
+        } else if suspended {
+            for m in mons.iter_mut() {
+                m.on_start(w, &b, vm.transaction(), rep);
+            }
+        }
+        if !suspended {
+            break;
+        }
+        if steps >= opts.max_steps {
+            truncated = true;
+            break;
+        }
+        // fetch the instruction about to execute
+        let pc = b.pc();
+        pre_word = vm
+            .memory()
+            .read(pc, 4usize)
+            .ok()
+            .map(|s| u32::from_be_bytes([s[0], s[1], s[2], s[3]]));
+        std::mem::swap(&mut a, &mut b);
+        have_pre = true;
+        cur = match guarded(|| vm.resume()) {
+            Ok(Ok(s)) => Ok(s),
+            Ok(Err(e)) => Err(format!("{e:?}")),
+            Err(p) => {
+                host_panic = Some(p.text.clone());
+                Err(format!("HOST PANIC: {}", p.text))
+            }
+        };
+    }
+    vm.set_single_stepping(false);
+    let outcome = outcome_of(w, vm, cur);
+    if !truncated {
+        for m in mons.iter_mut() {
+            m.on_finish(w, &outcome, vm, rep);
+        }
+    }
+    rep.count_n("bus_steps", steps);
+    BusPartial { outcome, steps, truncated, host_panic }
+}
